@@ -37,11 +37,17 @@ def run(chk):
     r6(chk, prog, f)
     from .. import numrules
     numrules.rule_valid_numbers(chk, prog, "C01.R7")
+    numrules.rule_literals(chk, prog, "C01.R8", None, None)
+    # the file-descriptor entry points parse the whole text: every byte read reaches the tokener in order (shared with C20)
+    from . import c20
+    mu = prog.module("json_util.c")
+    chk.require(mu is not None, "json_util.c not in the build")
+    c20.r2(chk, prog, mu)
     chk.undecided_clauses += [
         "the numeric conversions themselves (strtod / strtoll / strtoull are trusted; R6 decides only that their results reach the node unmodified)",
         "UTF-8 bit arithmetic of the \\\\u decoder (only the branch structure and byte counts are decided)",
-        "literal matching (strncmp on the token text): literal tokens are opaque to the automaton (number tokens are decided by R7, with "
-        "strtod / strtoll / strtoull taken at their ISO C contracts)",
+        "number and literal tokens are opaque to the general automaton (R1) and decided separately with the token buffer modelled "
+        "(R7, R8; strtod / strtoll / strtoull, strncmp / strncasecmp taken at their ISO C / POSIX contracts)",
         "equality of whole parsed documents with an independent parser's result",
         "duplicate member handling (decided under C06: replace keeps the entry)",
     ]
